@@ -158,6 +158,43 @@ Definition lock_ok (n : N) : bool := (1 <=? n) && (n <=? 2147483647).
 Definition is_true (m : ms) : bool := match m with MTrue => true | _ => false end.
 Definition is_false (m : ms) : bool := match m with MFalse => true | _ => false end.
 
+(* ------------------------------------------------------------------ node vector -> tree
+   `TreeIterItem` navigates the node vector through its indices; the model's from_tree works on the
+   recursive tree, rebuilt here from the pre-order vector and the n_children counts. *)
+Fixpoint build_kids (b : list node -> option (etree * list node)) (n : nat) (rest : list node)
+  : option (list etree * list node) :=
+  match n with
+  | O => Some ([], rest)
+  | S n' => match b rest with
+            | None => None
+            | Some (c, rest') =>
+              match build_kids b n' rest' with
+              | None => None
+              | Some (cs, rest'') => Some (c :: cs, rest'')
+              end
+            end
+  end.
+Fixpoint build (fuel : nat) (nodes : list node) : option (etree * list node) :=
+  match fuel with
+  | O => None
+  | S f =>
+    match nodes with
+    | [] => None
+    | nd :: rest =>
+      match build_kids (build f) (N.to_nat (nd_n_children nd)) rest with
+      | None => None
+      | Some (cs, rest') => Some (ENode (nd_name nd) (nd_parens nd) cs, rest')
+      end
+    end
+  end.
+Definition tree_of_nodes (nodes : list node) : option etree :=
+  match build (S (length nodes)) nodes with
+  | Some (t, []) => Some t
+  | _ => None
+  end.
+
+Inductive text_err := TxTree (e : tree_err) | TxMs (e : ms_err).
+
 Section TextModel.
 Variable print_key : key -> tbytes.
 Variable parse_key : tbytes -> option key.
@@ -416,6 +453,19 @@ Definition from_tree (t : etree) : outcome ms_err ms :=
        | Err e => Err e
        | Panic s => Panic s
        end.
+
+(* `Miniscript::from_str` without its `validate` step: expression::Tree::from_str, then from_tree
+   (Panic 42: the node vector is not the pre-order of a tree - cannot happen, C10_tree_parse_print) *)
+Definition from_str_model (s : tbytes) : outcome text_err ms :=
+  match from_str_inner s with
+  | Ok nodes =>
+    match tree_of_nodes nodes with
+    | Some t => match from_tree t with Ok m => Ok m | Err e => Err (TxMs e) | Panic p => Panic p end
+    | None => Panic 42
+    end
+  | Err e => Err (TxTree e)
+  | Panic p => Panic p
+  end.
 
 (* ------------------------------------------------------------------ what the parser enforces *)
 (* [chk] is required exactly where from_tree calls from_ast while parsing the printed form
